@@ -187,6 +187,10 @@ impl ToolRunner {
             }
         };
 
+        #[cfg(rip_verif)]
+        rip_kernel::verif::point("tool.exec.begin", || {
+            serde_json::json!({"stream": session_id, "tool": invocation.name, "tool_id": tool_id})
+        });
         let output = if let Some(timeout_ms) = invocation.timeout_ms {
             match tokio::time::timeout(
                 Duration::from_millis(timeout_ms),
@@ -200,6 +204,10 @@ impl ToolRunner {
         } else {
             Ok((handler)(invocation.clone()).await)
         };
+        #[cfg(rip_verif)]
+        rip_kernel::verif::point("tool.exec.end", || {
+            serde_json::json!({"stream": session_id, "tool": invocation.name, "tool_id": tool_id, "ok": output.is_ok()})
+        });
 
         match output {
             Ok(output) => {
